@@ -80,8 +80,8 @@ impl Prop for C06 {
 
     fn budget(tier: Tier) -> Budget {
         match tier {
-            Tier::Quick => Budget { cases: 6000, shards: 16 },
-            Tier::Thorough => Budget { cases: 250_000, shards: 16 },
+            Tier::Quick => Budget { cases: 60000, shards: 16 },
+            Tier::Thorough => Budget { cases: 480000, shards: 16 },
         }
     }
 
